@@ -214,6 +214,14 @@ def cases(tier, seed):
                 ap = {"src": "R", "target": px, "mode": r.choice(["ao", "+o"]), "tree": r.choice([True, False]), "emdpath": None}
             yield mk_case(F, R, [ap] + [gen_append(r, F, R, X) for _ in range(r.choice([0, 1]))], foreign=X)
             continue
+        if i % 17 == 5:
+            # the runtime tree IS the file tree (an append that has nothing to add: a no-op in append mode, a rewrite of the
+            # same content in append-over mode), then a second, ordinary append
+            import copy
+            R = copy.deepcopy(F)
+            first = {"src": "R", "target": [], "mode": r.choice(["a", "ao", "append", "appendover"]), "tree": True, "emdpath": None}
+            yield mk_case(F, R, [first, gen_append(r, F, R, X)], foreign=X)
+            continue
         appends = [gen_append(r, F, R, X) for _ in range(r.choice([1, 1, 2, 3]))]
         yield mk_case(F, R, appends, foreign=X)
 
